@@ -80,6 +80,8 @@ pub enum MStmt {
     Annotation(String),
     IncludeStd,
     ExprStmt(MExpr),
+    /// anonymous block `{ ... }` (only in programs of the wider grammar)
+    Scope(Vec<MStmt>),
     Empty,
 }
 
@@ -581,6 +583,7 @@ impl<'a> Printer<'a> {
                 self.expr(e, 0, false);
                 self.tok(";");
             }
+            MStmt::Scope(ss) => self.block(ss),
             MStmt::Empty => self.tok(";"),
         }
     }
@@ -976,6 +979,24 @@ impl<'a> Gen<'a> {
             }
             19 => MStmt::GPhase { mods: vec![], arg: self.num_expr(env, 1) },
             20 if env.in_def => MStmt::Return(None),
+            22 if !self.sema_safe => {
+                let mut e2 = env.clone();
+                e2.global = false;
+                let n = self.rng.below(3);
+                let ss = (0..n).map(|_| self.simple_stmt(&mut e2)).collect();
+                env.counter = e2.counter;
+                MStmt::Scope(ss)
+            }
+            23 if !self.sema_safe => {
+                // expression statements that start with an operator or a bracket
+                let e = self.num_expr(env, 1);
+                // (a statement starting with `-` directly after an assignment is the listed C16 finding
+                //  "operator glued to a preceding assignment"; the template pairs cover it)
+                match self.rng.below(2) {
+                    0 => MStmt::ExprStmt(MExpr::Bin("*", Box::new(MExpr::Paren(Box::new(e))), Box::new(MExpr::Int(2)))),
+                    _ => MStmt::ExprStmt(MExpr::Paren(Box::new(e))),
+                }
+            }
             21 => MStmt::End,
             _ => self.simple_stmt(env),
         }
